@@ -60,3 +60,25 @@ package values
 
 //@ func IsBool
 //@   ensures def: result == isBool(v)
+
+// --- the value protocol (C19): contracts of the interface methods user types may implement ---------------------------
+// builtin(v): v is one of the seven built-in value types; accepts(v, s): strconv's verdict for that type.
+//@ pure func builtinValue(v any) bool = isType(v, "*BoolValue") || isType(v, "*StringValue") || isType(v, "*IntValue") || isType(v, "*Float64Value") ||
+//@     isType(v, "*StringsValue") || isType(v, "*IntsValue") || isType(v, "*Floats64Value")
+//@ pure func accepts(v any, s string) bool =
+//@     isType(v, "*BoolValue") ? ParseBool_ok(s) :
+//@     (isType(v, "*IntValue") || isType(v, "*IntsValue")) ? ParseInt_ok(s, 10, 64) :
+//@     (isType(v, "*Float64Value") || isType(v, "*Floats64Value")) ? ParseFloat_ok(s, 64) : true
+
+// Set: recorded in the ghost trace as evSet(this, s); touches only the receiver's own storage (A-cb for user types);
+// for the built-in types the verdict is strconv's.
+//@ func flag::Value.Set(s)
+//@   logged
+//@   requires recv: builtinValue(this) ==> ival(this) != 0
+//@   ensures own-cell: boxframe(ival(this))
+//@   ensures verdict: builtinValue(this) ==> ((result == nil) <==> accepts(this, s))
+
+//@ func MultiValued.Clear
+//@   logged
+//@   requires recv: builtinValue(this) ==> ival(this) != 0
+//@   ensures own-cell: boxframe(ival(this))
